@@ -655,6 +655,9 @@ Qed.
 
 (* ------------------------------------------------------------------ the ARP request *)
 
+Lemma arp_spa_4 q : List.length (q_src_ip q) = 4%nat -> arp_spa q = q_src_ip q.
+Proof. intros H. unfold arp_spa, fc_arp_spa_to4. rewrite ?(to4_4 _ H). reflexivity. Qed.
+
 Lemma arp_frame_decodes q target :
   List.length (q_src_mac q) = 6%nat -> List.length (q_src_ip q) = 4%nat -> to4 (q_dst_ip q) = Some target ->
   exists frame, arp_frame q = Some frame /\ List.length frame = 60%nat /\
@@ -665,7 +668,7 @@ Proof.
   intros Hm Hs Ht. pose proof (to4_length _ _ Ht) as Lt.
   unfold arp_frame. rewrite eth_frame_ok by (try exact Hm; reflexivity).
   assert (Lb : List.length (arp_body q) = 28%nat).
-  { unfold arp_body. rewrite Ht. rewrite !app_length, Hm, Hs, Lt. reflexivity. }
+  { unfold arp_body. rewrite Ht, (arp_spa_4 q Hs). rewrite !app_length, Hm, Hs, Lt. reflexivity. }
   rewrite Lb. change (60 - (14 + 28))%nat with 18%nat.
   eexists. split; [reflexivity|]. split.
   - rewrite !app_length, Lb, Hm. reflexivity.
@@ -673,7 +676,7 @@ Proof.
     change fc_arp_ethertype with 2054.
     rewrite parse_eth_frame by (try exact Hm; try reflexivity; lia).
     cbn [ev_type Z.eqb Pos.eqb ev_payload]. unfold option_map.
-    unfold arp_body, arp_request_view. rewrite Ht.
+    unfold arp_body, arp_request_view. rewrite Ht, (arp_spa_4 q Hs).
     destruct (length6 _ Hm) as (m0 & m1 & m2 & m3 & m4 & m5 & ->).
     destruct (length4 _ Hs) as (s0 & s1 & s2 & s3 & ->).
     destruct (length4 _ Lt) as (t0 & t1 & t2 & t3 & ->).
